@@ -138,6 +138,10 @@ func (ch *channel) addInitDataAndUpdateTimescale(stream stream, init *mp4.InitSe
 	}
 	trak := moov.Traks[0]
 
+	if moov.Mvhd == nil {
+		return fmt.Errorf("no mvhd box found in init segment")
+	}
+
 	ch.startTime = 0 // 1970-01-01T00:00:00Z
 
 	creationTimeS := moov.Mvhd.CreationTimeS()
@@ -149,6 +153,9 @@ func (ch *channel) addInitDataAndUpdateTimescale(stream stream, init *mp4.InitSe
 
 	if trak.Mdia == nil || trak.Mdia.Minf == nil || trak.Mdia.Minf.Stbl == nil || trak.Mdia.Minf.Stbl.Stsd == nil {
 		return fmt.Errorf("no mdia, minf, stbl, or stsd box not found in track")
+	}
+	if trak.Mdia.Mdhd == nil || len(trak.Mdia.Minf.Stbl.Stsd.Children) == 0 {
+		return fmt.Errorf("no mdhd box or sample entry found in track")
 	}
 	r.timeScaleIn = trak.Mdia.Mdhd.Timescale
 	r.timeScaleOut = r.timeScaleIn
